@@ -314,3 +314,24 @@ func init() {
 		mutant{Name: "switch-tag-converted-to-the-case-type", Prop: "C02", File: "interp/run.go", Old: "\t\t\t\tif !v1.Type().AssignableTo(v0.Type()) {\n\t\t\t\t\t// The case value is converted to the type of the tag.\n\t\t\t\t\tif !v1.CanConvert(v0.Type()) {\n\t\t\t\t\t\tcontinue\n\t\t\t\t\t}\n\t\t\t\t\tv1 = v1.Convert(v0.Type())\n\t\t\t\t}\n", New: "\t\t\t\tif !v0.Type().AssignableTo(v1.Type()) {\n\t\t\t\t\tif !v0.CanConvert(v1.Type()) {\n\t\t\t\t\t\tcontinue\n\t\t\t\t\t}\n\t\t\t\t\tv0 = v0.Convert(v1.Type())\n\t\t\t\t}\n", Rule: "R02.18", Key: "_case/closure#7/tag-never-converted"},
 	)
 }
+
+func init() {
+	addMutants(
+		// D101 reverted
+		mutant{Name: "failed-assertion-on-a-missing-method-does-not-panic", Prop: "C05", File: "interp/run.go", Old: "\t\t\t\tmeth0, ok = m0[k]\n\t\t\t\tif !ok {\n\t\t\t\t\treturn failed(v.node.typ.id(), k)\n\t\t\t\t}\n", New: "\t\t\t\tmeth0, ok = m0[k]\n\t\t\t\tif !ok {\n\t\t\t\t\treturn next\n\t\t\t\t}\n", Rule: "R05.16", Key: "typeAssert/closure#1/failed-single-value-assertion-panics"},
+	)
+}
+
+func init() {
+	addMutants(
+		// D102 reverted (one site)
+		mutant{Name: "type-switch-on-interface-values-compares-identities", Prop: "C05", File: "interp/run.go", Old: "\t\t\t\t\tfor _, typ := range types {\n\t\t\t\t\t\tif matchValueInterface(vi, typ) {\n\t\t\t\t\t\t\tdestValue(f).Set(val)\n\t\t\t\t\t\t\treturn tnext\n\t\t\t\t\t\t}\n\t\t\t\t\t}\n", New: "\t\t\t\t\tfor _, typ := range types {\n\t\t\t\t\t\tif vi.node != nil && vi.node.typ.id() == typ.id() {\n\t\t\t\t\t\t\tdestValue(f).Set(val)\n\t\t\t\t\t\t\treturn tnext\n\t\t\t\t\t\t}\n\t\t\t\t\t}\n", Rule: "R05.17", Key: "_case/interface-value-branch#2/nil-concrete-and-interface-cases"},
+	)
+}
+
+func init() {
+	addMutants(
+		// D103 reverted (methods)
+		mutant{Name: "promoted-method-first-hit", Prop: "C05", File: "interp/type.go", Old: "\t\t\t\tif n, index2 := f.typ.lookupMethod2(name, cloneSeen(seen)); n != nil && (m == nil || len(index2)+1 < len(index)) {\n\t\t\t\t\tm, index = n, append([]int{i}, index2...)\n\t\t\t\t}\n", New: "\t\t\t\tif n, index2 := f.typ.lookupMethod2(name, seen); n != nil {\n\t\t\t\t\treturn n, append([]int{i}, index2...)\n\t\t\t\t}\n", Rule: "R05.18", Key: "itype.lookupMethod2/fields-loop#1/shallowest-candidate-kept"},
+	)
+}
